@@ -40,7 +40,8 @@ PROPS = {
         pkg="engine", level="exploration",
         rule=SEQ_RULE + "; programs additionally contain clean Close/Open cycles at drawn positions (after a rotation, with a "
                         "non-empty flush queue, twice in a row) with a new Config per Open and restart gaps from 1 ns to days; "
-                        "non-trivial additionally requires at least one restart",
+                        "non-trivial additionally requires at least one restart; besides read mismatches, an Open that fails or panics on a "
+                        "cleanly closed directory and any client call that panics on a reopened instance are violations",
         quick=dict(runs=1200, budget_s=45), thorough=dict(runs=60000, budget_s=1200, det_runs=32),
         must_probes=dict(quick=["restart", "runs_reaching_L1"], thorough=["restart", "runs_reaching_L1", "runs_reaching_L2"]),
     ),
@@ -99,12 +100,13 @@ PROPS = {
     ),
     "C08": dict(
         pkg="engine", level="exploration",
-        rule=SEQ_RULE + "; two thirds of the runs are single-client programs with discarded / closure-failed transactions, misuse calls "
+        rule=SEQ_RULE + "; two thirds of the runs are single-client programs with discarded / closure-failed transactions (half of the failing Update "
+             "closures panic and the client recovers around db.Update), misuse calls "
              "(write in read-only txn, use after finish, empty key, View/Update after Close) and clean restarts judged by the map model "
              "that ignores abandoned transactions; one third are 2-3 client programs where no read may return a value of a "
              "transaction that did not commit; non-trivial = at least one abandoned transaction or misuse call and one read",
         quick=dict(runs=3000, budget_s=40), thorough=dict(runs=150000, budget_s=1200, det_runs=32),
-        must_probes=dict(quick=["abandoned_txns", "misuse_calls", "restart", "conc_runs"], thorough=["abandoned_txns", "misuse_calls", "restart", "conc_runs"]),
+        must_probes=dict(quick=["abandoned_txns", "misuse_calls", "restart", "conc_runs", "closure_panics"], thorough=["abandoned_txns", "misuse_calls", "restart", "conc_runs", "closure_panics"]),
     ),
     "C15": dict(
         pkg="engine", level="exploration",
@@ -131,15 +133,16 @@ PROPS = {
     "C13": dict(
         pkg="comp", level="exploration", eval_is_oracle=True,
         rule="one run = a real WaterMark (real consumer goroutine as a simulated task) driven by 1-4 caller tasks with generated "
-             "Begin/Done/WaitForMark/cancel sequences (repeated indices, out-of-order completion, Done without Begin before anything "
+             "Begin/Done/WaitForMark/cancel sequences (repeated indices, out-of-order completion, indices begun out of order (a skipped "
+             "index begun after higher ones), Done without Begin before anything "
              "else, indices at or below the current mark, bursts of more marks than the channel buffer with the consumer starved, "
              "some begins deliberately left unfinished) under one seeded schedule; the scheduler evaluates the counting model at "
              "EVERY scheduling step (monotone; not at/after an unfinished index), waits that must complete are never cancelled, "
              "the others are cancelled at drawn moments, catch-up is required at quiescence (exact, via deadlock detection); "
              "evaluations = scheduling steps at which the invariant was evaluated; distinct_nontrivial = distinct event-log hashes",
         quick=dict(runs=40000, budget_s=30), thorough=dict(runs=3000000, budget_s=900, det_runs=64),
-        must_probes=dict(quick=["more_marks_than_buffer", "done_without_begin", "out_of_order_done", "wait_uncancelled_ok", "wait_cancelled", "begin_at_current_mark", "left_unfinished", "late_index_pair"],
-                         thorough=["more_marks_than_buffer", "done_without_begin", "out_of_order_done", "wait_uncancelled_ok", "wait_cancelled", "begin_at_current_mark", "left_unfinished", "late_index_pair"]),
+        must_probes=dict(quick=["more_marks_than_buffer", "done_without_begin", "out_of_order_done", "wait_uncancelled_ok", "wait_cancelled", "begin_at_current_mark", "left_unfinished", "late_index_pair", "out_of_order_begin"],
+                         thorough=["more_marks_than_buffer", "done_without_begin", "out_of_order_done", "wait_uncancelled_ok", "wait_cancelled", "begin_at_current_mark", "left_unfinished", "late_index_pair", "out_of_order_begin"]),
         components={"pkg/watermark": "real code (consumer goroutine simulated as a task)", "callers": "generated harness tasks",
                     "goroutine scheduling, select choice": "simulated (seeded)", "context": "real context package inside the synctest bubble"},
     ),
